@@ -10,17 +10,34 @@ Import ListNotations.
    InvalidValueError (or a subclass of it, re-raised as is). *)
 Theorem wrapper_total :
   forall e : exn, is_exception e = true ->
-  exists e', check_property_wrapper (CleanRaise e) = Exc e' S_lib /\ subclass e' K_InvalidValueError = true.
+  exists e', check_property_wrapper (CleanRaise e None) = Exc e' S_lib /\ subclass e' K_InvalidValueError = true.
 Proof. exact wrapper_total_lemma. Qed.
 Print Assumptions wrapper_total.
 
 (* ... and the wrapper never lets anything else out: an exception leaving it is
    an InvalidValueError or is not an Exception at all (KeyboardInterrupt ...). *)
 Theorem wrapper_only :
-  forall r e s, check_property_wrapper r = Exc e s ->
+  forall r e s, (forall e0 sf, r = CleanRaise e0 sf -> sf = None) -> check_property_wrapper r = Exc e s ->
   s = S_lib /\ (subclass e K_InvalidValueError = true \/ is_exception e = false).
 Proof. exact wrapper_never_returns_other. Qed.
 Print Assumptions wrapper_only.
+
+(* The wrapper words the reason with str(exc) inside its `except` handler.  wrapper_total / wrapper_only are
+   about exceptions whose __str__ returns; when it raises e' instead, e' is what escapes -- whatever its class.
+   (So the totality of the library's own exception classes' __str__ is an obligation of its own:
+   library_exception_str_templates_constant below, generated from stix2/exceptions.py.) *)
+Theorem wrapper_str_failure_escapes :
+  forall e e', is_exception e = true -> subclass e K_InvalidValueError = false ->
+  check_property_wrapper (CleanRaise e (Some e')) = Exc e' S_lib.
+Proof. exact wrapper_str_failure. Qed.
+Print Assumptions wrapper_str_failure_escapes.
+
+(* the library's own exception classes (stix2/exceptions.py, re-read on every run): every message is produced by
+   `.format` / `%` on a CONSTANT template whose fields exist -- input is never spliced into a template, so their
+   __str__ cannot fail on hostile text ({x}, {0.a}, %s ...) *)
+Theorem library_exception_str_templates_constant : exceptions_str_templates_constant = true.
+Proof. exact exceptions_templates_ok. Qed.
+Print Assumptions library_exception_str_templates_constant.
 
 (* parse(): for every input value, every decoder behaviour (json.loads), every
    registry without unknown hooks and EVERY behaviour of the property cleaners
@@ -29,7 +46,7 @@ Print Assumptions wrapper_only.
 Theorem nonfamily_only_at_unguarded_sites :
   forall (V : variant) (R : registry) (cl : blackbox) (strictext refuse : bool) (dec : decoder) (x : jvalue) (ac io : bool) (version : option ustring),
   reg_known R = true ->
-  (forall ac' io' sl ov e, cl ac' io' sl ov = CleanRaise e -> is_exception e = true) ->
+  well_behaved cl ->
   forall e s, In (Exc e s) (parse V R (clean_via cl) strictext refuse dec x ac io version) -> family e = false -> V s = false.
 Proof.
   intros V R cl strictext refuse dec x ac io version HR Hcl e s Hin Hf.
@@ -42,7 +59,7 @@ Print Assumptions nonfamily_only_at_unguarded_sites.
 Theorem family_only :
   forall (V : variant) (R : registry) (cl : blackbox) (strictext refuse : bool) (dec : decoder) (x : jvalue) (ac io : bool) (version : option ustring),
   all_guarded V -> reg_known R = true ->
-  (forall ac' io' sl ov e, cl ac' io' sl ov = CleanRaise e -> is_exception e = true) ->
+  well_behaved cl ->
   forall e s, In (Exc e s) (parse V R (clean_via cl) strictext refuse dec x ac io version) -> family e = true.
 Proof.
   intros V R cl strictext refuse dec x ac io version HV HR Hcl e s Hin.
@@ -54,7 +71,7 @@ Print Assumptions family_only.
 Theorem family_only_parse_observable :
   forall (V : variant) (R : registry) (cl : blackbox) (strictext refuse : bool) (dec : decoder) (x vr : jvalue) (ac io : bool) (version : option ustring),
   all_guarded V -> reg_known R = true ->
-  (forall ac' io' sl ov e, cl ac' io' sl ov = CleanRaise e -> is_exception e = true) ->
+  well_behaved cl ->
   forall e s, In (Exc e s) (parse_observable V R (clean_via cl) strictext refuse dec x vr ac io version) -> family e = true.
 Proof.
   intros V R cl strictext refuse dec x vr ac io version HV HR Hcl e s Hin.
@@ -68,7 +85,7 @@ Theorem family_only_dict_to_stix2 :
   forall (V : variant) (R : registry) (cl : blackbox) (strictext refuse : bool) (dec : decoder) (d : jvalue) (nonstr ac io : bool)
          (version : option ustring),
   all_guarded V -> reg_known R = true ->
-  (forall ac' io' sl ov e, cl ac' io' sl ov = CleanRaise e -> is_exception e = true) ->
+  well_behaved cl ->
   forall e s, In (Exc e s) (dict_to_stix2 V R (clean_via cl) strictext refuse dec d nonstr ac io version) -> family e = true.
 Proof.
   intros V R cl strictext refuse dec d nonstr ac io version HV HR Hcl e s Hin.
@@ -81,7 +98,7 @@ Print Assumptions family_only_dict_to_stix2.
 Theorem family_only_parse_file :
   forall (V : variant) (R : registry) (cl : blackbox) (strictext refuse : bool) (dec : decoder) (tr : textres) (ac io : bool) (version : option ustring),
   all_guarded V -> reg_known R = true ->
-  (forall ac' io' sl ov e, cl ac' io' sl ov = CleanRaise e -> is_exception e = true) ->
+  well_behaved cl ->
   forall e s, In (Exc e s) (parse_file V R (clean_via cl) strictext refuse dec tr ac io version) -> family e = true.
 Proof.
   intros V R cl strictext refuse dec tr ac io version HV HR Hcl e s Hin.
@@ -94,7 +111,7 @@ Print Assumptions family_only_parse_file.
 Theorem family_only_construct :
   forall (V : variant) (R : registry) (cl : blackbox) (strictext : bool) (dec : decoder) (c : cls) (ac io : bool) (kw : list (ustring * jvalue)),
   all_guarded V -> reg_known R = true -> cls_known c = true ->
-  (forall ac' io' sl ov e, cl ac' io' sl ov = CleanRaise e -> is_exception e = true) ->
+  well_behaved cl ->
   forall e s, In (Exc e s) (construct V R (clean_via cl) strictext dec c ac io kw) -> family e = true.
 Proof.
   intros V R cl strictext dec c ac io kw HV HR Hc Hcl e s Hin.
@@ -120,7 +137,7 @@ Print Assumptions family_only_evaluated_model.
    subclass re-raised by the wrapper where the evaluated set has InvalidValueError *)
 Theorem evaluated_model_covers_every_cleaner :
   forall (V : variant) (R : registry) (cl : blackbox) (strictext refuse : bool) (dec : decoder) (x : jvalue) (ac io : bool) (version : option ustring),
-  (forall ac' io' sl ov e, cl ac' io' sl ov = CleanRaise e -> is_exception e = true) ->
+  well_behaved cl ->
   forall r, In r (parse V R (clean_via cl) strictext refuse dec x ac io version) ->
   exists r', In r' (parse V R clean_any strictext refuse dec x ac io version) /\
              (r = r' \/ exists e, r = Exc e S_lib /\ subclass e K_InvalidValueError = true /\
@@ -220,10 +237,10 @@ Print Assumptions store_add_list_effect.
 (* hypotheses are satisfiable / the statements are not vacuous *)
 Example repaired_all_guarded : all_guarded repaired.
 Proof. intros s. reflexivity. Qed.
-Example blackbox_exists : exists cl : blackbox, forall ac io s ov e, cl ac io s ov = CleanRaise e -> is_exception e = true.
-Proof. exists (fun _ _ _ _ => CleanRaise (Derived 7 (Known K_RecursionError))). intros ac io s ov e H. inversion H. reflexivity. Qed.
+Example blackbox_exists : exists cl : blackbox, well_behaved cl.
+Proof. exists (fun _ _ _ _ => CleanRaise (Derived 7 (Known K_RecursionError)) None). intros ac io s ov e sf H. inversion H. split; reflexivity. Qed.
 Example recursion_error_is_wrapped :
-  check_property_wrapper (CleanRaise (Known K_RecursionError)) = Exc (Known K_InvalidValueError) S_lib.
+  check_property_wrapper (CleanRaise (Known K_RecursionError) None) = Exc (Known K_InvalidValueError) S_lib.
 Proof. reflexivity. Qed.
 Example keyerror_not_family : family (Known K_KeyError) = false /\ family (Known K_JSONDecodeError) = true.
 Proof. split; reflexivity. Qed.
